@@ -2,8 +2,8 @@
 Model of the repeating timed-event generator of dash-live (property C14):
 
 * `dashlive/server/events/repeating_event_base.py`
-  `RepeatingEventBase.create_emsg_boxes` (lines 59-132, after the `fix:` commit
-  a993bc6) and `create_manifest_context` (lines 35-53),
+  `RepeatingEventBase.create_emsg_boxes` (lines 63-137, after the `fix:` commits
+  a993bc6 and 8c4223f) and `create_manifest_context` (lines 39-57),
 * the `emsg` box layout of `dashlive/mpeg/mp4.py:2986-3034`
   (`EventMessageBox.parse` / `encode_box_fields`, versions 0 and 1).
 
@@ -39,11 +39,11 @@ structure Seg where
   dur  : Int
   deriving Repr, DecidableEq
 
-/-- lines 73-74: `seg_start = (seg_start * self.timescale) // representation.timescale` -/
+/-- line 76: `seg_start = (seg_start * self.timescale) // representation.timescale` -/
 def segStart (s : Sched) (repTs : Int) (g : Seg) : Int :=
   pydiv (g.tfdt * s.timescale) repTs
 
-/-- lines 68, 74: `seg_end = ((tfdt + duration) * self.timescale) // representation.timescale` -/
+/-- lines 73, 77: `seg_end = ((tfdt + duration) * self.timescale) // representation.timescale` -/
 def segEnd (s : Sched) (repTs : Int) (g : Seg) : Int :=
   pydiv ((g.tfdt + g.dur) * s.timescale) repTs
 
@@ -54,17 +54,17 @@ structure Ev where
   pt : Int
   deriving Repr, DecidableEq
 
-/-- the `while presentation_time < seg_end:` loop, lines 97-131.
+/-- the `while presentation_time < seg_end:` loop, lines 106-136.
 `none` = the fuel ran out. -/
 def emsgLoop (s : Sched) (segStart segEnd : Int) : Nat → Int → Int → Option (List Ev)
   | 0, _, _ => none
   | fuel+1, id, pt =>
     if ¬ (pt < segEnd) then some []                       -- loop condition
-    else if s.count > 0 ∧ id ≥ s.count then some []        -- lines 98-100 (fix a993bc6)
-    else if pt < segStart then                             -- lines 101-104 skip forward
+    else if s.count > 0 ∧ id ≥ s.count then some []        -- lines 107-109 (fix a993bc6)
+    else if pt < segStart then                             -- lines 110-113 skip forward
       emsgLoop s segStart segEnd fuel (id + 1) (pt + s.interval)
-    else                                                   -- lines 105-127 emit
-      if s.count > 0 ∧ id + 1 ≥ s.count then some [⟨id, pt⟩]   -- lines 128-130
+    else                                                   -- lines 114-132 emit
+      if s.count > 0 ∧ id + 1 ≥ s.count then some [⟨id, pt⟩]   -- lines 133-135
       else (emsgLoop s segStart segEnd fuel (id + 1) (pt + s.interval)).map (⟨id, pt⟩ :: ·)
 
 inductive Res (α : Type) where
@@ -74,18 +74,22 @@ inductive Res (α : Type) where
   | outOfFuel
   deriving Repr, DecidableEq
 
+/-- `RepeatingEventBase.MAX_EVENTS_PER_SEGMENT` (line 36) -/
+def maxEventsPerSegment : Int := 10000
+
 /-- `create_emsg_boxes` up to the list of `(event_id, presentation_time)` pairs,
 given the segment interval `[a, b)` already converted to the event timebase. -/
 def emsgEvents (s : Sched) (a b : Int) (fuel : Nat) : Res (List Ev) :=
-  if !s.inband then .ok []                                  -- lines 61-62
-  else if s.interval < 1 then .valueError                   -- lines 63-66 (fix a993bc6)
-  else if s.start ≥ b then .ok []                           -- lines 82-83
-  else if s.count > 0 ∧ s.start + s.count * s.interval < a then .ok []   -- lines 85-89
+  if !s.inband then .ok []                                  -- lines 65-66
+  else if s.interval < 1 then .valueError                   -- lines 67-70 (fix a993bc6)
+  else if pydiv (b - a) s.interval > maxEventsPerSegment then .valueError   -- lines 82-85 (fix 8c4223f)
+  else if s.start ≥ b then .ok []                           -- lines 90-91
+  else if s.count > 0 ∧ s.start + s.count * s.interval < a then .ok []   -- lines 93-97
   else
-    let e0 := if a > s.start then pydiv (a - s.start) s.interval else 0  -- lines 91-93
-    if e0 < 0 then .assertionError                          -- line 94
+    let e0 := if a > s.start then pydiv (a - s.start) s.interval else 0  -- lines 99-102
+    if e0 < 0 then .assertionError                          -- line 103
     else
-      match emsgLoop s a b fuel e0 (s.start + e0 * s.interval) with  -- line 95
+      match emsgLoop s a b fuel e0 (s.start + e0 * s.interval) with  -- line 104
       | none => .outOfFuel
       | some l => .ok l
 
@@ -106,7 +110,7 @@ structure Emsg where
   pt            : Option Int
   deriving Repr, DecidableEq
 
-/-- lines 108-124: the keyword arguments of `EventMessageBox(**kwargs)` -/
+/-- lines 117-131: the keyword arguments of `EventMessageBox(**kwargs)` -/
 def mkEmsg (s : Sched) (a : Int) (e : Ev) : Emsg :=
   { version := s.version, timescale := s.timescale, eventDuration := s.duration,
     eventId := e.id,
@@ -123,7 +127,7 @@ def createEmsg (s : Sched) (repTs : Int) (g : Seg) : Res (List Emsg) :=
   | .assertionError => .assertionError
   | .outOfFuel => .outOfFuel
 
-/-! ### out-of-band: `create_manifest_context`, lines 35-53 -/
+/-! ### out-of-band: `create_manifest_context`, lines 39-57 -/
 
 /-- one `stream.events` entry: `id`, `presentationTime`, `duration` -/
 structure OobEv where
